@@ -125,6 +125,11 @@ func buildQuery(sp *Specs, o *Obligation, models bool) string {
 	}
 	q.WriteString("(set-logic ALL)\n")
 	for _, l := range sp.SMT {
+		// definitions (define-fun / define-fun-rec) only when their symbol is used; recursive
+		// definitions slow z3 down considerably even when they are irrelevant
+		if m := smtFunRe.FindStringSubmatch(l); m != nil && strings.HasPrefix(m[1], "define-fun") && !used[m[2]] {
+			continue
+		}
 		q.WriteString(l)
 		q.WriteString("\n")
 	}
@@ -225,6 +230,12 @@ func (s *Solver) solveWith(sp *Specs, o *Obligation, which []int, res *SolveResu
 		return res
 	}
 	res.Status = ""
+	if strings.Contains(q, "(define-fun-rec ") && len(which) > 1 && !s.All {
+		// recursive spec functions: cvc5 decides these quickly where z3 keeps unfolding
+		which = []int{2, 0, 1}
+	} else if strings.Contains(q, "(define-fun-rec ") && len(which) == 1 && which[0] == 0 {
+		which = []int{2}
+	}
 	for _, i := range which {
 		sv := solvers[i]
 		status, out, el := runSolver(sv, file, s.Timeout)
@@ -334,7 +345,11 @@ func (s *Solver) SolveAll(sp *Specs, obls []*Obligation, workers int) {
 		g := groups[n]
 		jobs = append(jobs, func() {
 			for _, o := range g {
-				o.Result = s.solveWith(sp, o, []int{1, 2}, o.Result)
+				rest := []int{1, 2}
+				if len(o.Result.Tried) > 0 && strings.HasPrefix(o.Result.Tried[0], "cvc5") {
+					rest = []int{0, 1}
+				}
+				o.Result = s.solveWith(sp, o, rest, o.Result)
 				if o.Result.Status != "unsat" {
 					return // the obligation has failed; the remaining instances stay undecided
 				}
